@@ -3,6 +3,7 @@ Soundness of the two non-linear propagator models (`timesPass`, `divPass`) of
 `Model/Propagation.lean`; continues `Model/PropagationSound.lean`.
 -/
 import Pumpkin.Model.PropagationSound
+import Pumpkin.Model.CumulativeSound
 
 namespace Pumpkin.Pg
 
@@ -644,6 +645,10 @@ theorem pass_ok {n : Nat} {a : List Int} (p : PropInst) (hw : p.Wf n) (d : Doms)
   | clause ls =>
     simp only [PropInst.cons, Cons.sat, List.any_eq_true] at hsat
     exact clausePass_ok ls hw hsat d h hl
+  | cumulative holes ts cap =>
+    have hT : ∀ t, loadAt ts a t ≤ cap :=
+      (CumSem.cumulative_sat_iff ts cap a (fun k hk => (hw k hk).2)).1 hsat
+    exact ttPass_ok holes ts cap hw hT d h hl
   | reified r p ih =>
     simp only [PropInst.cons, Cons.sat, Bool.or_eq_true, Bool.not_eq_true'] at hsat
     simp only [PropInst.pass]
